@@ -6,6 +6,7 @@ import ProductMD.Proofs.C05CI
 import ProductMD.Proofs.C05CIDownEx
 import ProductMD.Proofs.C05TreeInfo
 import ProductMD.Proofs.C05TreeInfoIdem
+import ProductMD.Proofs.C05TIDownEx
 import ProductMD.Proofs.C05WitnessTI
 import ProductMD.Proofs.C05WitnessTI03
 import ProductMD.Proofs.C05WitnessTI00
@@ -606,6 +607,117 @@ theorem C05_ti_idempotent (sp : Char → Bool) (hsp : IniParse.SpOK sp) (hh : sp
     | cons c cs => rw [hu] at this; simpa using this
   exact C04_tree_bytes sp hsp hh hs fo t none text n h htext hck himn hts (hfl n hts) hplat huok hnd htop hcs ⟨hin, hF25⟩ hv hk
     (fun m hm => by cases hm)
+
+/-! ### the general down-conversion theorem, treeinfo
+
+`TI.down vs ver ck t` (Model/TreeInfoDown.lean) is the file a writer of format `ver` would have written for the tree `t`: the
+current file with the documented differences applied (`[header]` version text, `type` only from 1.1; ≤ 0.3: `[product]`, no
+`parent`, children under `addons` or `variants`, on a source tree the source paths under `packages` / `repository`).  0.1 – 1.2
+carry the same facts, so the documented result is the normal form itself (`TI.norm`, what the current format gives back: C04):
+**no loss**.  `TI.down` is compared with the harness's `legacy.ti_sections` on every generated case (driver op `c05_ti_down`). -/
+
+/--
+**faithful, every header version but 0.0, forests of any size and depth.**  The legacy-aware reader loads the format-`ver`
+file of `t` as exactly `norm t`: release (from `[product]` for ≤ 0.3), base product, tree, every variant at any depth with its
+fields, type, paths and children, checksums, images, stage2, media.  Hypotheses: `hval`, `hvt` — the header accepts the version
+text (facts about the text alone); `hts` … `hv` — exactly those of `C04_tree_readback` (the same file syntax: comma-free
+non-empty names, distinct UIDs, F17, F24, F25); and only for ≤ 0.3 (`hold`), each decidable and each necessary:
+* `ck` is one of the two spellings of the child list the ≤ 0.3 reader knows;
+* `ChainOK` — the `option_lookup` chain of a variant (`variant-UID`, `variant-ID`, `addon-UID`, `addon-ID`: the old format
+  allowed sections named by the bare id) meets no OTHER variant's section; otherwise the variant inherits that variant's paths
+  (`C05_ti_down_conditions_needed`: a child with id `B` beside a top-level `B`);
+* `SrcRepresentable` — on a source tree (`arch = src`) no variant has `packages` / `repository`: the ≤ 0.3 format keeps the
+  source paths there and has no other place for binary ones.
+-/
+theorem C05_ti_faithful_down (fo : FloatOracle) (vs : Str) (ver : Nat × Nat) (ck : Str) (t : TreeInfo) (d' : Ini) (n : Int)
+    (hdown : TI.down vs ver ck t = .ok d') (hne0 : (ver == (0, 0)) = false)
+    (hval : validateClass "treeinfo.Header" (TI.headerObj vs) = .ok ()) (hvt : TI.versionTuple vs = .ok ver)
+    (hts : t.tree.ts = .int n) (hfl : fo.intOfFloatStr (Str.intStr n) = .ok n)
+    (hplat : PlatformsOK t.tree) (huok : UidsOK t.variants) (hnd : UidsNodup t.variants)
+    (htop : TopNotAddon t.variants) (hcs : ChecksumsOK t.checksums) (himg : ImagesOK t.tree.arch t.images)
+    (hv : ReadValid (norm t))
+    (hold : tupleLe ver (0, 3) = true → (ck = kAddons ∨ ck = kVariants) ∧ ChainOK t.variants
+      ∧ ∀ x ∈ subVs none t.variants, SrcRepresentable (t.tree.arch == "src".toList) x.2.paths) :
+    TI.Legacy.deserialize fo d' = .ok (norm t) := by
+  cases ho : tupleLe ver (0, 3) with
+  | false => exact deserialize_down_new fo vs ver ck t d' n hdown ho hval hvt hts hfl hplat huok hnd htop hcs himg hv
+  | true =>
+    obtain ⟨hck, hch, hsr⟩ := hold ho
+    exact deserialize_down_old fo vs ver ck t d' n hdown ho hne0 hval hvt hck hts hfl hplat huok hnd htop hcs himg hv hch hsr
+
+/-- above 0.3 (0.4 … 1.0, 1.1, 1.2, any later version the header accepts): nothing beyond C04's hypotheses -/
+theorem C05_ti_faithful_down_above_0_3 (fo : FloatOracle) (vs : Str) (ver : Nat × Nat) (ck : Str) (t : TreeInfo) (d' : Ini) (n : Int)
+    (hdown : TI.down vs ver ck t = .ok d') (hnew : tupleLe ver (0, 3) = false)
+    (hval : validateClass "treeinfo.Header" (TI.headerObj vs) = .ok ()) (hvt : TI.versionTuple vs = .ok ver)
+    (hts : t.tree.ts = .int n) (hfl : fo.intOfFloatStr (Str.intStr n) = .ok n)
+    (hplat : PlatformsOK t.tree) (huok : UidsOK t.variants) (hnd : UidsNodup t.variants)
+    (htop : TopNotAddon t.variants) (hcs : ChecksumsOK t.checksums) (himg : ImagesOK t.tree.arch t.images)
+    (hv : ReadValid (norm t)) :
+    TI.Legacy.deserialize fo d' = .ok (norm t) :=
+  deserialize_down_new fo vs ver ck t d' n hdown hnew hval hvt hts hfl hplat huok hnd htop hcs himg hv
+
+/-- the reader side of it, for any file: **a file that differs from one the current reader accepts only in its `[header]`** —
+a version text above 0.3 that the header accepts — is read by the legacy-aware reader as the same object.  (The lemma the
+`[general]` theorems of C17 can be transported with: the current writer's output with another header version.) -/
+theorem C05_ti_header_only (fo : FloatOracle) (d d' : Ini) (x : TreeInfo) (vs : Str) (ver : Nat × Nat)
+    (h : TI.deserialize fo d = .ok x)
+    (hh : TI.Legacy.deHeaderL d' = .ok vs) (hvt : TI.versionTuple vs = .ok ver) (hnew : tupleLe ver (0, 3) = false)
+    (hsame : ∀ s, s ≠ sHeader → d'.lookup s = d.lookup s) (hnames : d'.map (·.1) = d.map (·.1)) :
+    TI.Legacy.deserialize fo d' = .ok x :=
+  legacy_of_current fo d d' x vs ver h hh hvt hnew hsame hnames
+
+/-- **then idempotent**: for a tree in normal form the loaded object is the tree itself; the current writer's file for it is
+read back by the *current* reader as the same tree, and dumping that gives the same document (C04_tree_fixpoint) -/
+theorem C05_ti_down_then_idempotent (fo : FloatOracle) (vs : Str) (ver : Nat × Nat) (ck : Str) (t : TreeInfo) (d' : Ini) (n : Int)
+    (hdown : TI.down vs ver ck t = .ok d') (hne0 : (ver == (0, 0)) = false) (hnorm : norm t = t)
+    (hval : validateClass "treeinfo.Header" (TI.headerObj vs) = .ok ()) (hvt : TI.versionTuple vs = .ok ver)
+    (hts : t.tree.ts = .int n) (hfl : fo.intOfFloatStr (Str.intStr n) = .ok n)
+    (hplat : PlatformsOK t.tree) (huok : UidsOK t.variants) (hnd : UidsNodup t.variants)
+    (htop : TopNotAddon t.variants) (hcs : ChecksumsOK t.checksums) (himg : ImagesOK t.tree.arch t.images)
+    (hold : tupleLe ver (0, 3) = true → (ck = kAddons ∨ ck = kVariants) ∧ ChainOK t.variants
+      ∧ ∀ x ∈ subVs none t.variants, SrcRepresentable (t.tree.arch == "src".toList) x.2.paths) :
+    TI.Legacy.deserialize fo d' = .ok t
+    ∧ ∃ d, serialize t none = .ok d ∧ TI.deserialize fo d = .ok t ∧ (TI.deserialize fo d).bind (serialize · none) = .ok d := by
+  cases hser : serialize t none with
+  | error e => unfold TI.down at hdown; rw [hser] at hdown; cases hdown
+  | ok d =>
+    have hv : ReadValid (norm t) := by rw [hnorm]; exact readValid_of_normal (serialize_valid hser) hnorm
+    have h1 := C05_ti_faithful_down fo vs ver ck t d' n hdown hne0 hval hvt hts hfl hplat huok hnd htop hcs himg hv hold
+    rw [hnorm] at h1
+    obtain ⟨h2, h3⟩ := C04_tree_fixpoint fo t none d n hser hnorm hts hfl hplat huok hnd htop hcs himg
+    exact ⟨h1, d, rfl, h2, h3⟩
+
+/-- the theorems are not vacuous and their conclusions evaluate: C04's example tree (three levels, an addon with a variant
+below it, paths, layered release, checksums, images, stage2, media) as 0.3 with `variants`, as 1.0 and as 1.1, and a source
+tree as 0.2 with `addons` (its file keeps the source paths under `packages` / `repository`: `ex_src_file`); every hypothesis
+holds of them (`ex_old_hyps`, and the C04 examples) -/
+theorem C05_ti_down_nonvacuous :
+    ((TI.down "0.3".toList (0, 3) kVariants C04_exTree0).toOption.map (TI.Legacy.deserialize C04_fo)) = some (.ok (norm C04_exTree0))
+    ∧ ((TI.down "0.2".toList (0, 2) kAddons exSrcTree).toOption.map (TI.Legacy.deserialize C04_fo)) = some (.ok (norm exSrcTree))
+    ∧ ((TI.down "1.0".toList (1, 0) kAddons C04_exTree0).toOption.map (TI.Legacy.deserialize C04_fo)) = some (.ok (norm C04_exTree0))
+    ∧ ((TI.down "1.1".toList (1, 1) kAddons C04_exTree0).toOption.map (TI.Legacy.deserialize C04_fo)) = some (.ok (norm C04_exTree0))
+    ∧ ChainOK C04_exTree0.variants ∧ ChainOK exSrcTree.variants
+    ∧ (∀ x ∈ subVs none exSrcTree.variants, SrcRepresentable (exSrcTree.tree.arch == "src".toList) x.2.paths) :=
+  ⟨ex_down_evaluated.1, ex_down_evaluated.2.1, ex_down_evaluated.2.2.1, ex_down_evaluated.2.2.2,
+   ex_old_hyps.1, ex_old_hyps.2.2.1, ex_old_hyps.2.2.2.1⟩
+
+/-- **both ≤ 0.3 conditions are needed**: a child with id `B` beside a top-level `B` violates `ChainOK`, its 0.3 file loads and
+the child has inherited `B`'s `packages` path; a source tree with a binary `packages` path is not `SrcRepresentable`, and the
+binary path comes back as the source path -/
+theorem C05_ti_down_conditions_needed :
+    (¬ ChainOK exChainTree.variants
+     ∧ ((TI.down "0.3".toList (0, 3) kAddons exChainTree).toOption.map fun d =>
+        match TI.Legacy.deserialize C04_fo d with
+        | .ok t' => t'.variants.flatMap fun v => v.kids.map fun k => (k.uid, k.paths)
+        | .error _ => []) = some [("A-B".toList, [("packages".toList, "B/Packages".toList)])])
+    ∧ (let t := { exSrcTree with variants := [.mk "S".toList "S".toList "S".toList "S".toList "variant".toList
+                 [("packages".toList, "bin".toList), ("source_packages".toList, "src".toList)] []] }
+       ¬ (∀ x ∈ subVs none t.variants, SrcRepresentable (t.tree.arch == "src".toList) x.2.paths)
+       ∧ ((TI.down "0.3".toList (0, 3) kAddons t).toOption.map fun d =>
+          match TI.Legacy.deserialize C04_fo d with
+          | .ok t' => t'.variants.map fun v => v.paths
+          | .error _ => []) = some [[("source_packages".toList, "bin".toList)]]) :=
+  ⟨ex_chain_needed, ex_src_needed⟩
 
 /-- **faithful and idempotent on a 0.3 witness** (`Proofs/C05WitnessTI.lean`: `wTI03`, evaluated in the kernel): `[product]`
 becomes the release, the child listed under `variants` is found in its `addon-` section, the `src` tree's paths become
